@@ -138,6 +138,9 @@ func (r *runner) do(req unitReq) (unitResp, string) {
 
 func firstLine(s string) string {
 	s = strings.TrimSpace(s)
+	if i := strings.Index(s, "fatal error:"); i >= 0 {
+		s = s[i:]
+	}
 	if i := strings.IndexByte(s, '\n'); i >= 0 {
 		s = s[:i]
 	}
@@ -542,8 +545,11 @@ func run(out, tier string, seed int64) {
 			// drift diagnostic (not the verdict): generator's matcher against ELEMENTS
 			var ids []string
 			for _, n := range cs.Exp {
-				id, _ := n.attr("data-n")
-				ids = append(ids, osTerm(id))
+				if id, ok := n.attr("data-n"); ok {
+					ids = append(ids, osTerm(id))
+				} else {
+					ids = append(ids, "ONone")
+				}
 			}
 			if got, want := obs[3], "OL ["+strings.Join(ids, ";")+"]\x00[]"; got != want {
 				genDisagree++
